@@ -175,7 +175,7 @@ func (w *World) globalInits() map[string]*Term {
 			}
 		}
 	}
-	e := &Engine{prog: w.prog, fset: w.fset, modPrefix: modPath, maxDepth: 0, loopBound: 1, maxPaths: 2000, funcByName: w.funcs, opaque: map[string]bool{}, hof: map[string]int{}}
+	e := &Engine{prog: w.prog, fset: w.fset, modPrefix: modPath, maxDepth: 0, loopBound: 1, maxPaths: 2000, funcByName: w.funcs, opaque: map[string]bool{}, hof: map[string]int{}, hofMethod: map[string]string{}}
 	for _, fn := range w.modFns {
 		if !(fn.Name() == "init" && fn.Synthetic != "" && fn.Parent() == nil) {
 			continue
@@ -251,7 +251,7 @@ func (w *World) engine(depth, loops int) *Engine {
 			depth = 8
 		}
 	}
-	return &Engine{uniqueImpl: w.uniqueImpl, globalInit: w.globalInits(),prog: w.prog, fset: w.fset, modPrefix: modPath, maxDepth: depth, loopBound: loops, maxPaths: 20000, funcByName: w.funcs, opaque: map[string]bool{}, hof: map[string]int{}}
+	return &Engine{uniqueImpl: w.uniqueImpl, globalInit: w.globalInits(),prog: w.prog, fset: w.fset, modPrefix: modPath, maxDepth: depth, loopBound: loops, maxPaths: 20000, funcByName: w.funcs, opaque: map[string]bool{}, hof: map[string]int{}, hofMethod: map[string]string{}}
 }
 
 func (w *World) pos(p token.Pos) string {
